@@ -76,6 +76,24 @@ class _ForkNeeded(Exception):
         self.cond = cond
 
 
+def str_literal(v):
+    """a string constant = the sequence of its character codes"""
+    codes = [ord(ch) for ch in v]
+
+    def at(i, codes=codes):
+        s_ = z3.simplify(Z(i))
+        if z3.is_int_value(s_) and 0 <= s_.as_long() < len(codes):
+            return IntV(codes[s_.as_long()])
+        if not codes:
+            return IntV(0)
+        out = z3.IntVal(codes[-1])
+        for k_ in range(len(codes) - 2, -1, -1):
+            out = z3.If(Z(i) == k_, codes[k_], out)
+        return IntV(out)
+
+    return SeqV(len(codes), at, "str", {"literal": v})
+
+
 class FunV(V):
     def __init__(self, node, env):
         self.node = node
@@ -257,6 +275,11 @@ class Engine:
             idm = fresh_fun(name + "_idx", z3.IntSort(), z3.IntSort())  # trigger-only: idx(r) names the r-th set
             self.seed_funs.append(idm)
             return SeqV(n, mk_set, "list", {"cellsets": S3, "idmark": idm})
+        if sort == "Str":  # a string = the sequence of its character codes
+            n = fresh(name + "_n")
+            st.assume(n >= 0)
+            F = fresh_fun(name, z3.IntSort(), z3.IntSort())
+            return SeqV(n, lambda i: IntV(F(i)), "str", {"fun": F, "len": n})
         if sort == "opaque":
             return ObjV("opaque", {"__id__": IntV(fresh(name))})  # a value the function never inspects
         if sort == "CellSet":
@@ -679,7 +702,7 @@ class Engine:
                 self.emit(f"post-view[{vname}]", hy, conj, f"{tag}.{j}")
 
     def adapt_result(self, val, K, c):
-        if isinstance(val, ListV):
+        if isinstance(val, (ListV, TupListV)):
             val = val.snapshot()
         if K.returns == "Perm":
             if not isinstance(val, SeqV):
@@ -776,11 +799,15 @@ class Engine:
         if isinstance(node, ast.Assign):
             val = self.ev(node.value, st)
             shapes = getattr(self.contract.cls, "list_shapes", None) if self.contract is not None else None
-            if shapes and isinstance(val, ListV) and len(node.targets) == 1 and isinstance(node.targets[0], ast.Name) \
+            if shapes and isinstance(val, (ListV, TupListV)) and len(node.targets) == 1 and isinstance(node.targets[0], ast.Name) \
                     and node.targets[0].id in shapes and isinstance(node.value, ast.List) and not node.value.elts:
                 # the contract declares the element shape of a list that starts empty (k-tuples of ints)
                 ar_ = shapes[node.targets[0].id]
-                val = ListV(0, lambda i, ar_=ar_: TupV([IntV(0)] * ar_))
+                if ar_ == "tuples":
+                    if not self.concrete:
+                        val = self.fresh_tuplist(st, empty=True)  # a list of integer tuples of varying length (e.g. strings)
+                else:
+                    val = ListV(0, lambda i, ar_=ar_: TupV([IntV(0)] * ar_))
             for tgt in node.targets:
                 self.assign(tgt, val, st)
             return [("fall", st, None)]
@@ -1274,7 +1301,7 @@ class Engine:
         if isinstance(v, int):
             return IntV(v)
         if isinstance(v, str):
-            return ObjV("str", {"value": v})
+            return str_literal(v)
         raise Unsupported(f"constant {v!r}")
 
     def ev_Name(self, node, st):
@@ -1301,6 +1328,8 @@ class Engine:
                 if isinstance(n, ast.Assign) and len(n.targets) == 1 and isinstance(n.targets[0], ast.Name) and n.targets[0].id == name:
                     if isinstance(n.value, ast.Constant) and isinstance(n.value.value, int):
                         return IntV(n.value.value)
+                    if isinstance(n.value, ast.Constant) and isinstance(n.value.value, str):
+                        return str_literal(n.value.value)
                     if isinstance(n.value, ast.UnaryOp) and isinstance(n.value.op, ast.USub) and isinstance(n.value.operand, ast.Constant):
                         return IntV(-n.value.operand.value)
         return None
@@ -1498,6 +1527,9 @@ class Engine:
     def contains(self, coll, v, st):
         if isinstance(coll, SetV):
             return B(coll.contains(v))
+        if isinstance(coll, SeqV) and coll.meta.get("literal") is not None and isinstance(v, (IntV, int)):
+            lit = coll.meta["literal"]  # character in "....": one of these codes
+            return z3.Or([Z(v) == ord(ch) for ch in lit]) if lit else z3.BoolVal(False)
         if isinstance(coll, (SeqV, ListV)):
             if self.concrete:
                 n_c = z3.simplify(coll.n)
